@@ -65,6 +65,22 @@ def run(ck, ctx):
     I.watch_calls.add("parse_units")
     _vmemo, _smemo = {}, {}
 
+    def callable_of(fi):
+        """function node of a validator / serializer; for one made by a factory, a closure over the factory call's
+        arguments"""
+        fenv = getattr(fi, "factory_env", None)
+        if fenv is None:
+            return I.func_node(fi)
+        n_ = I.mk("Closure", (), fi)
+        env = {}
+        for k_, expr in fenv.items():
+            try:
+                env[k_] = I.eval_in_module(mod, expr)
+            except Exception:
+                env[k_] = I.unknown("factory-arg:" + k_, None)
+        n_.extra = {"env": env, "self_node": None}
+        return n_
+
     def validator_unit(fi, m):
         """[] if the validator does not convert units, else [(returns the conversion of its own argument, unit
         name, text)] - decided on the value graph, however the body is spelled"""
@@ -73,7 +89,7 @@ def run(ck, ctx):
         x = I.input("x")
         log0 = len(I.call_log)
         try:
-            r = I.run(I.func_node(fi), [I.class_node(m.ci), x])
+            r = I.run(callable_of(fi), [I.class_node(m.ci), x])
         except Exception:
             r = None
         calls = [c for c in I.call_log[log0:] if c[0].qualname == "parse_units"]
@@ -94,12 +110,12 @@ def run(ck, ctx):
             return _smemo[id(sf)]
         x = I.input("x")
         slf = I.input("self", kind="obj")
-        r = I.run(I.func_node(sf), [slf, x])
+        r = I.run(callable_of(sf), [slf, x])
         v = r.value
         ok, Us, V = False, None, None
         if v is not None and is_ext_call(v, "builtins.str") and len(v.args) == 2:
             q = v.args[1]
-            if q.op == "MCall" and q.attr[0] == "to" and len(q.args) == 2:
+            if q.op == "MCall" and q.attr[0] == "to" and len(q.args) == 2 and q.attr[1] == 1 and not q.attr[2]:
                 V = unit_name(q.args[1])
                 q = q.args[0]
             if is_ext_call(q, "astropy.units.Quantity") and len(q.args) == 3 and q.args[1] is x:
@@ -199,6 +215,12 @@ def run(ck, ctx):
         tnames = {x.attr for x in (types.args if types.op == "Tuple" else [types]) if x.op == "Ext"}
         ck.ob("R15.2", "the converted kinds are exactly (Quantity, str)", tnames == {"astropy.units.Quantity",
               "builtins.str"}, cond, fn, str(sorted(tnames)))
+        to_call = conv.args[0] if conv.op == "Attr" and conv.args and conv.args[0].op == "MCall" else None
+        if to_call is not None and to_call.attr[0] == "to":
+            extra = list(to_call.attr[2]) + (["<positional>"] if to_call.attr[1] != 1 else [])
+            ck.ob("R15.2", "the conversion is a plain .to(unit): no equivalencies or other options that widen which units "
+                  "are accepted (an incompatible unit must be rejected)", not extra, to_call, fn,
+                  f"extra arguments: {extra}" if extra else "", construct="parse_units: .to() with extra arguments")
         okc = conv.op == "Attr" and conv.attr == "value" and conv.args[0].op == "MCall" and \
             conv.args[0].attr[0] == "to" and conv.args[0].args[1] is unit and \
             is_ext_call(conv.args[0].args[0], "astropy.units.Quantity") and conv.args[0].args[0].args[1] is val and \
